@@ -10,7 +10,7 @@ from simcan import world
 from simcan.bus import Transport
 from simcan.core import MS, SEC, US
 from simcan.models.sdo_server import crc16_xmodem
-from simcan.util import call, site
+from simcan.util import call, site, need_bytes
 
 ID = "C13"
 LEVEL = "fault_enumeration"
@@ -181,6 +181,8 @@ def scenario(ctx):
     res, exc = call(do)
     plan.active = False
     ctx.drain()
+    if exc is None:
+        res = need_bytes(ctx, "C13", res, "block upload %04X:%02X len=%d" % (index, sub, length))
     fired = plan.fired > 0
     what = "block upload %04X:%02X len=%d (%d segments) crc(client=%s,server=%s) fault=%s@%s" % (
         index, sub, length, nseg, creq, csup, fault, sorted(plan.drop_at) if fault.endswith("drop") else pos)
